@@ -987,6 +987,15 @@ def bfs_histories(cfg, menu, depth):
     return hists, len(seen), len(edges)
 
 
+def _keep_alive(b):
+    """vt/c/build.py removes build directories of other source trees that are older than two hours;
+    a concurrent run against a scratch tree (VERIF_REPO=...) would delete ours mid-run."""
+    try:
+        os.utime(b.dir, None)
+    except OSError:
+        pass
+
+
 def _work(chunk):
     part = Part()
     mode, asan, menu, depth, cfgs = chunk
@@ -996,6 +1005,7 @@ def _work(chunk):
     try:
         for setup, files in cfgs:
             _STEP_CACHE.clear()
+            _keep_alive(b)
             cfg = Config(setup, files)
             root = rn.materialise(cfg)
             if mode == 'bfs':
@@ -1054,7 +1064,7 @@ def run(ctx):
                                                'symmetry_group': gsize, 'state_dedup': mode == 'bfs'}
             stride = int(os.environ.get('VERIF_C17_STRIDE', '0') or 0)      # development aid only
             if stride > 1:
-                cfgs = cfgs[ctx.seed % stride::stride]
+                cfgs = cfgs[::stride]
                 ctx.cap('VERIF_C17_STRIDE=%d: only every %d-th configuration' % (stride, stride))
             per = 4 if mode == 'all' else 24
             for i in range(0, len(cfgs), per):
